@@ -253,7 +253,10 @@ def run_cmd_case(case, res: CaseResult):
     deadline = timeout / 1000.0
     correct_times = [t for v, t in sent if v == 'correct']
     first_correct = min(correct_times) if correct_times else None
-    tie = first_correct is not None and abs(first_correct - deadline) < 0.0025
+    # execute() starts its timeout only after send() returned (for peer commands that includes opening the
+    # connection): the deadline lies between t0 + timeout and (arrival of the request at the remote) + timeout
+    late_deadline = max(deadline, (out.get('req_time') or 0.0) + deadline)
+    tie = first_correct is not None and deadline - 0.0025 < first_correct < late_deadline + 0.0025
     if outcome is None:
         res.violate('C12/cmd-no-outcome:' + name, '')
     elif outcome[0] == 'error':
@@ -278,7 +281,7 @@ def run_cmd_case(case, res: CaseResult):
         if outcome[0] == 'result':
             res.violate(f'C12/cmd-completed-by-non-matching-reply:{name}',
                         f'returned after {outcome[1] * 1000:.1f} ms although no matching reply arrived in time; script={sent}')
-        elif abs(outcome[1] - deadline) > 0.004 and out.get('req_time', 0) < deadline:
+        elif not (deadline - 0.004 <= outcome[1] <= late_deadline + 0.004) and (out.get('req_time') or 0) < deadline:
             res.violate(f'C12/cmd-timeout-at-wrong-time:{name}', f'{outcome[1]} vs {deadline}')
     if out.get('residue'):
         res.violate('C12/cmd-residue-in-pending-list:' + name, str(out['residue']))
